@@ -43,6 +43,8 @@ def classify(res, prop):
         m = re.search(r'ERROR: AddressSanitizer: ([\w-]+)', err)
         if m:
             kind = m.group(1)
+            if kind == 'requested':
+                kind = 'allocation-size-too-big'
             if kind == 'ABRT':
                 t = re.search(r"terminate called after throwing an instance of '([^']+)'", err)
                 kind = 'abort:' + (t.group(1) if t else 'abort')
